@@ -30,7 +30,9 @@ static void afterInsert(H::Element *e, void *)
 }
 static void beforeRemove(H::Element *e, void *)
 {
-    events.push_back("R" + std::to_string(idOf.at(e)));
+    // (find, not at: a callback fired for an element the harness has already retired must show up as a stray event, not abort)
+    auto it = idOf.find(e);
+    events.push_back("R" + (it == idOf.end() ? std::string("?") : std::to_string(it->second)));
 }
 
 static std::string dump(H &h)
@@ -148,8 +150,8 @@ int main()
         {
             if (heap.empty()) { fin("empty"); continue; }
             H::Element *e = heap.top();
-            kill(e);
             heap.pop();
+            kill(e);   // e is only a map key here
             fin("ok");
         }
         else if (op == "top" && t.size() == 1)
